@@ -411,8 +411,73 @@ fn pick_timeouts(rng: &mut Rng) -> (u64, u64) {
     (t, ct)
 }
 
+/// a server that fails (or stays silent) but keeps a lookup busy for ≥ 7 ms
+fn slow_failure(rng: &mut Rng) -> FServer {
+    let d = *rng.pick(&[7u64, 20, 50, 110, 250]);
+    match rng.weighted(&[3, 3, 2, 2, 2]) {
+        0 => FServer { udp: Some(UdpBeh::RecvErr { d }), tcp: None, trust_nx: false },
+        1 => FServer { udp: Some(UdpBeh::Nx { d }), tcp: None, trust_nx: false },
+        2 => FServer { udp: None, tcp: Some(TcpBeh { conn: Conn::Refused { c: d }, reply: Reply::Silent }), trust_nx: false },
+        3 => FServer { udp: None, tcp: Some(TcpBeh { conn: Conn::Ok { c: 1 }, reply: if rng.bool() { Reply::Close { l: d } } else { Reply::Reset { l: d } } }), trust_nx: false },
+        _ => FServer { udp: Some(UdpBeh::Silent), tcp: None, trust_nx: false },
+    }
+}
+
+/// identical callers started a few ms apart (not in index order), mostly through a
+/// `RetryDnsHandle`: every caller joins the lookup in flight, and all share every retry
+fn gen_stagger(rng: &mut Rng) -> FScn {
+    let (t, ct) = pick_timeouts(rng);
+    let mut servers: Vec<FServer> = (0..1 + rng.usize_below(2)).map(|_| slow_failure(rng)).collect();
+    if rng.chance(2, 3) {
+        let d = *rng.pick(&[7u64, 20, 50, 110]);
+        servers.push(if rng.bool() {
+            FServer { udp: Some(UdpBeh::Answer { d }), tcp: None, trust_nx: true }
+        } else {
+            FServer { udp: None, tcp: Some(TcpBeh { conn: Conn::Ok { c: 1 }, reply: Reply::Answer { l: d } }), trust_nx: true }
+        });
+    }
+    rng.shuffle(&mut servers);
+    let n = servers.len();
+    let strat = *rng.pick(&Strat::ALL);
+    let warm = if strat == Strat::Qs {
+        let mut w: Vec<u8> = (1..=n as u8).collect();
+        rng.shuffle(&mut w);
+        w
+    } else {
+        Vec::new()
+    };
+    let k = 2 + rng.usize_below(3);
+    let mut ats: Vec<u64> = (0..k).map(|_| rng.below(4)).collect();
+    // somebody starts at 0; in half of the cases it is not caller 0
+    let z = if rng.bool() { 0 } else { 1 + rng.usize_below(k - 1) };
+    ats[z] = 0;
+    if z != 0 && ats[0] == 0 {
+        ats[0] = 1 + rng.below(3);
+    }
+    FScn {
+        family: "stagger".into(),
+        servers,
+        strat,
+        conc: *rng.pick(&[1usize, 1, 2]),
+        timeout: t,
+        connect_timeout: ct,
+        retry: match rng.weighted(&[25, 40, 35]) {
+            0 => None,
+            1 => Some(2),
+            _ => Some(1),
+        },
+        max_active: 32,
+        warm,
+        callers: ats.into_iter().map(|at| FCaller { q: 0, at }).collect(),
+        later: false,
+    }
+}
+
 pub fn gen_full(rng: &mut Rng) -> FScn {
-    let fam = rng.weighted(&[18, 16, 10, 6, 32, 10, 8]);
+    let fam = rng.weighted(&[18, 16, 10, 6, 32, 10, 8, 6]);
+    if fam == 7 {
+        return gen_stagger(rng);
+    }
     let (mut t, mut ct) = pick_timeouts(rng);
     if fam <= 3 && ct > t {
         // the targeted families need connect_timeout < timeout
